@@ -30,6 +30,10 @@ pub struct ScriptedReader {
     pub ctl: Rc<RefCell<Ctl>>,
 }
 
+impl std::fmt::Debug for ScriptedReader {
+    fn fmt(&self, f: &mut std::fmt::Formatter<'_>) -> std::fmt::Result { write!(f, "ScriptedReader@{}", self.pos) }
+}
+
 fn next_rand(c: &mut Ctl) -> u64 {
     c.rng ^= c.rng << 13;
     c.rng ^= c.rng >> 7;
@@ -122,6 +126,13 @@ impl ScriptedReader {
         if matches!(f.as_deref(), Some("error") | Some("eof") | Some("wouldblock") | Some("timedout") | Some("brokenpipe") | Some("unexpectedeof")) {
             c.hard_fault = true;
             c.log.push(json!({"op":"seek","f":"error"}));
+            // where a stream is after a failed seek is unspecified: half of the time the cursor HAS moved (to the
+            // target, or somewhere else) although the call reports failure
+            match next_rand(&mut c) % 4 {
+                0 => { if let SeekFrom::Start(o) = to { self.pos = o; } }
+                1 => { self.pos = self.pos.wrapping_add(1 + next_rand(&mut c) % 64).min(self.data.len() as u64); }
+                _ => {}
+            }
             return Err(Error::new(ErrorKind::Other, "injected"));
         }
         let np: i128 = match to {
@@ -180,14 +191,16 @@ fn mres<T>(r: Result<Result<T, elf::ParseError>, String>, f: impl FnOnce(T) -> V
 fn stream_bulk<E: EndianParse>(es: &mut ElfStream<E, ScriptedReader>, ctl: &Rc<RefCell<Ctl>>, op: &Value) -> Value {
     let n = op["n"].as_u64().unwrap_or(0);
     let m = op["m"].as_u64().unwrap_or(1).max(1);
+    // size0 > 0: every range is size0 bytes longer (histories that put 2^24 .. 2^30 bytes into the cache); no checksum then
+    let size0 = op.get("size0").and_then(|v| v.as_u64()).unwrap_or(0);
     let (r, a, mx) = measured(|| {
         let (mut nok, mut sum) = (0u64, 0u64);
         for k in 0..n {
-            let sh = elf::section::SectionHeader { sh_name: 0, sh_type: 1, sh_flags: 0, sh_addr: 0, sh_offset: k % m, sh_size: 1 + k / m,
+            let sh = elf::section::SectionHeader { sh_name: 0, sh_type: 1, sh_flags: 0, sh_addr: 0, sh_offset: k % m, sh_size: size0 + 1 + k / m,
                                                    sh_link: 0, sh_info: 0, sh_addralign: 1, sh_entsize: 0 };
             if let Ok((d, _)) = es.section_data(&sh) {
                 nok += 1;
-                sum = (sum + d.iter().map(|b| *b as u64).sum::<u64>()) % 65521;
+                if size0 == 0 { sum = (sum + d.iter().map(|b| *b as u64).sum::<u64>()) % 65521; }
             }
         }
         (nok, sum)
